@@ -142,57 +142,69 @@ def pinned_cases():
 
 def failfast_cases():
     """-k (fail-fast), which the property names as the exception to `pdsh terminates instead of waiting`: pinned runs
-    judged by an oracle of their own (`failfast_offenders`)."""
-    A = T.alphabet(5, 0)
+    (every pair over the core alphabet, fanout 1 and 2, plus hosts that hang with no timeout that would end them)
+    through the acceptor (`Dsh/TimedK.lean`) and an oracle of their own (`failfast_offenders`)."""
     out = []
-    for i, (vec, f, bad) in enumerate([(["ok", "ok2", "silent"], 2, None), (["ok2", "close-err-early"], 1, None),
-                                       (["refuse", "hang-after", "ok2"], 3, 0), (["hang-after", "refuse"], 2, 1),
-                                       (["ok", "refuse", "hang-silent"], 1, 1), (["hang-after", "hang-connect"], 2, 1)]):
-        c = T.mk_case([A[k] for k in vec], f, 5, 0, False, 7500 + i, strategy="eagerD")
+
+    def add(vec, f, ct, ut):
+        A = T.alphabet(ct, ut)
+        c = T.mk_case([A[k] for k in vec], f, ct, ut, False, 7500 + len(out),
+                      strategy=["eagerD", "uniform", "starveD"][len(out) % 3])
         c["opts"]["k"] = 1
-        c["failfast"] = {"failing": bad}
+        c["failfast"] = True
         out.append(c)
+    for a in T.CORE:
+        for b in T.CORE:
+            for f in (1, 2):
+                add([a, b], f, 2, 3)
+    for vec, f in ((["ok", "ok2", "silent"], 2), (["ok2", "close-err-early"], 1), (["refuse", "hang-after", "ok2"], 3),
+                   (["hang-after", "refuse"], 2), (["ok", "refuse", "hang-silent"], 1),
+                   (["hang-after", "hang-connect"], 2), (["hang-silent", "exit3", "hang-after"], 3)):
+        add(vec, f, 5, 0)
     return out
 
 
 def failfast_offenders(res):
-    """-k: (1) as long as no host fails, -k changes nothing (the ordinary oracle applies); (2) when a host fails
-    (connect refused / timed out) pdsh must not wait for the others -- not even for one that hangs with no command
-    timeout set: it forwards SIGTERM to every command that is running and exits with a non-zero status at that very
+    """-k, decided on the events of the run alone: (1) as long as no target fails, -k changes nothing (the ordinary
+    oracle applies); (2) when a target has failed -- connect refused / timed out, command timed out, or exit status
+    > 0 -- and its worker has left rcmd_destroy(), pdsh does not wait for anybody, not even for a host that hangs
+    with no timeout set: it forwards SIGTERM to every command it is reading from and exits non-zero at that very
     virtual instant."""
     if res["crash"] is not None or res["bug"]:
         return T.offenders(res)
-    bad = res["case"]["failfast"]["failing"]
     m = res["M"]
-    if bad is None:
-        return T.offenders(res)
-    out = []
-    if m["status"] != "exit" or int(m["code"]) == 0:
-        return [("failfast:no-exit", "-k and %s fails, but the run ends with status=%s code=%s instead of a non-zero "
-                 "exit" % (res["case"]["hosts"][bad]["name"], m["status"], m["code"]))]
+    case = res["case"]
     H = T.observe(res)
-    running, fwd, t_fail, t_end = set(), set(), None, 0
+    reading, fwd, t_fail, who, t_end = set(), set(), None, None, 0
     for _, now, th, ev in T.events(res):
         t_end = now
-        if th.startswith("W") and ev[0] == "connectEnd":
-            i = int(th[1:])
-            if int(ev[2]) >= 0:
-                running.add(i)
-            elif i == bad and t_fail is None:
-                t_fail = now
-        elif th.startswith("W") and ev[0] == "destroyEnd":
-            running.discard(int(th[1:]))
+        if not th.startswith("W") or int(th[1:]) >= len(H):
+            continue
+        i = int(th[1:])
+        if ev[0] == "connectEnd" and int(ev[2]) >= 0:
+            reading.add(i)
+        elif ev[0] == "destroyBegin":
+            reading.discard(i)
         elif ev[0] == "fwd" and int(ev[2]) == 15:
             fwd.add(int(ev[1]))
+        elif ev[0] == "destroyEnd" and t_fail is None:
+            rc = int(ev[2]) if len(ev) > 2 and ev[2].lstrip("-").isdigit() else 0
+            if H[i]["connret"] is not None and (H[i]["connret"] < 0 or H[i]["timeout_at"] is not None or rc > 0):
+                t_fail, who = now, i
+                reading_then = set(reading)
     if t_fail is None:
-        out.append(("failfast:harness", "the failing host never failed"))
-    elif t_end > t_fail:
-        out.append(("failfast:waited", "-k: %s failed at %d but pdsh went on until %d" %
-                    (res["case"]["hosts"][bad]["name"], t_fail, t_end)))
-    miss = sorted(running - fwd)
+        return T.offenders(res)
+    name = case["hosts"][who]["name"]
+    out = []
+    if m["status"] != "exit" or int(m["code"]) == 0:
+        return [("failfast:no-exit", "-k and %s failed (teardown over at %d), but the run ends with status=%s code=%s "
+                 "instead of a non-zero exit" % (name, t_fail, m["status"], m["code"]))]
+    if t_end > t_fail:
+        out.append(("failfast:waited", "-k: %s failed, teardown over at %d, but pdsh went on until %d" % (name, t_fail, t_end)))
+    miss = sorted(reading_then - fwd)
     if miss:
-        out.append(("failfast:not-signalled", "-k: pdsh exits but the running command(s) of %s were not sent SIGTERM" %
-                    ",".join(res["case"]["hosts"][i]["name"] for i in miss)))
+        out.append(("failfast:not-signalled", "-k: pdsh exits but the command(s) of %s, which it was reading from, were "
+                    "not sent SIGTERM" % ",".join(case["hosts"][i]["name"] for i in miss)))
     return out
 
 
@@ -248,7 +260,7 @@ def run(ctx):
                 for sig, what in (failfast_offenders(res) if case.get("failfast") else T.offenders(res)):
                     ctx.log("replay: %s %s" % (sig, what))
                     ctx.offender(sig, what, T.pack(res))
-                if case.get("yield") == "fan" and res["crash"] is None and not case.get("failfast"):
+                if case.get("yield") == "fan" and res["crash"] is None:
                     bad = T.accept_all(ctx, [T.project(res, *variant)])[0]
                     if bad:
                         ctx.disagreement("Timed LTS vs dsh.c", "line %d `%s`: %s" % bad, T.pack(res))
@@ -411,11 +423,22 @@ def explore(ctx, exe_san, exe, variant, cov, dist):
     run_chunked(pinned, "pinned scenarios (fault kind x window position x timeout options, descriptors 0-2, pdcp worker)")
     ff = T.run_cases(exe_san, failfast_cases(), ctx.scratch)
     dist["failfast_runs"] = len(ff)
+    dist["failfast_exits"] = sum(1 for r in ff if (r["M"] or {}).get("status") == "exit")
+    okff = [r for r in ff if r["crash"] is None and not r["bug"]]
+    for r, bad in zip(okff, T.accept_all(ctx, [T.project(r, *variant) for r in okff]) if okff else []):
+        if bad is not None:
+            dist["rejects"] += 1
+            if dist["rejects"] <= 3:
+                ctx.disagreement("Timed LTS with -k (Dsh/TimedK.lean) vs dsh.c",
+                                 "projected trace line %d `%s`: %s" % (bad[0], bad[1], bad[2]), T.pack(r))
+        else:
+            dist["accepted"] += 1
     for r in ff:
         cov["evaluations"] += 1
         for sig, what in failfast_offenders(r):
             pending.append((len(r["case"]["hosts"]), len(r["steps"]), sig, what, r))
             newcount[0] += 1
+    ctx.log("-k (fail-fast) scenarios: %d runs, %d ended by the fail-fast exit" % (len(ff), dist["failfast_exits"]))
     settings_q = [(2, 3, True), (1, 0, False), (3, 1, True)]
     settings_t = [(2, 3, True), (1, 0, False), (3, 1, True), (2, 2, False), (0, 2, True), (5, 4, True)]
     if ctx.quick():
